@@ -19,6 +19,7 @@ import (
 )
 
 type tbWorld struct {
+	out    *Sub // a second fact ("Out") that the templates only write
 	json   map[string]interface{}
 	preJ   jsonSnap
 	tmpl   string
@@ -188,6 +189,8 @@ func tbSetup(tmpl string, shape int, permute bool) *tbWorld {
 	w.dc = ast.NewDataContext()
 	w.dc.Add("F", w.f)
 	w.dc.Add("N", smallInt("N"))
+	w.out = &Sub{V: smallInt("Out.V"), S: "out"}
+	w.dc.Add("Out", w.out)
 	// a JSON fact (decoded tree with symbolic leaves), as DataContext.AddJSON would register it
 	w.json = newJSONTree("J")
 	if dcx, ok := w.dc.(*ast.DataContext); ok {
@@ -330,14 +333,14 @@ func tbInvalidates(re *ast.RuleEntry) bool {
 // Template sets (the *programs* dimension is a curated family; see DESIGN §4).
 var tbSets = map[string][]string{
 	"json":    {"j_basic"},
-	"memo":    {"b_basic", "b_toplevel", "b_slice_sel", "b_slice", "b_map", "b_nested", "b_short", "b_shared", "b_forget", "b_ptrswap", "b_forgetcall", "b_chain", "b_failshared", "b_elemfield"},
+	"memo":    {"b_basic", "b_toplevel", "b_slice_sel", "b_slice", "b_map", "b_nested", "b_short", "b_shared", "b_forget", "b_ptrswap", "b_forgetcall", "b_chain", "b_failshared", "b_elemfield", "m_multires", "m_partial"},
 	"control": {"b_retract", "b_fail", "b_nilptr", "b_actfail"},
 	"values":  {"b_compound", "b_args", "b_float", "b_string"},
-	"reuse":   {"b_unread", "b_retract", "b_basic"},
-	"reuseq":  {"b_unread", "b_basic"},
+	"reuse":   {"b_unread", "b_retract", "b_basic", "b_writeonly", "b_complete"},
+	"reuseq":  {"b_unread", "b_basic", "b_writeonly", "b_complete"},
 	"dbg":     {"b_elemfield"},
 	"fetch":   {"b_basic", "b_short", "b_map", "b_slice", "b_nested", "b_shared"},
-	"clone":   {"b_argshare", "b_shared", "b_short", "b_retract", "b_map", "b_slice_sel", "b_forgetcall", "two"},
+	"clone":   {"b_paren", "b_argshare", "b_shared", "b_short", "b_retract", "b_map", "b_slice_sel", "b_forgetcall", "two"},
 }
 
 // VerifTierBSet runs VerifTierBRun for every template of a set (enumerated by Choice, explored in parallel).
@@ -543,7 +546,13 @@ func lastIndex(xs []string, s string) int {
 // VerifTierBReuse: two Execute calls on ONE instance, each with its own data context and its own symbolic facts.
 // The second call must behave like a call on a fresh instance: the memo-free oracle (C01/C02) is asserted throughout it,
 // and it must not touch the first caller's facts.
-func VerifTierBReuse(set string, maxCycle int, fetchFirst int) {
+func VerifTierBReuse(set string, maxCycle int, fetchFirst int) { verifTierBReuse(set, maxCycle, fetchFirst, 0) }
+
+// VerifTierBReuseSameDC: the second call re-uses the SAME data context and fact objects; the host program has changed the
+// fact values in between (plain Go assignments).
+func VerifTierBReuseSameDC(set string, maxCycle int) { verifTierBReuse(set, maxCycle, 0, 1) }
+
+func verifTierBReuse(set string, maxCycle int, fetchFirst int, sameDC int) {
 	ts := tbSets[set]
 	tmpl := ts[verif.Choice("template", len(ts))]
 	w := tbSetup(tmpl, 0, false)
@@ -565,14 +574,32 @@ func VerifTierBReuse(set string, maxCycle int, fetchFirst int) {
 	f1 := w.f
 	n1 := w.topN()
 	after1 := snapFact(f1, n1)
+	out1 := w.out
+	out1V := out1.V
+	dc1 := w.dc
+	complete1 := dc1.IsComplete()
 	firedFirst := len(w.fired)
-	// second call: new data context, new facts, same instance
-	w.f = newFact("G", 0)
-	w.dc = ast.NewDataContext()
-	w.dc.Add("F", w.f)
-	w.dc.Add("N", smallInt("N2"))
+	// second call: new data context and new facts (or, sameDC: the SAME data context and fact objects whose values the
+	// host program has changed in between), same instance
+	if sameDC == 0 {
+		w.f = newFact("G", 0)
+		w.out = &Sub{V: smallInt("Out2.V"), S: "out"}
+		w.dc = ast.NewDataContext()
+		w.dc.Add("F", w.f)
+		w.dc.Add("N", smallInt("N2"))
+		w.dc.Add("Out", w.out)
+	} else {
+		w.f.I, w.f.J, w.f.K = smallInt("F.I'"), smallInt("F.J'"), smallInt("F.K'")
+		w.f.B, w.f.C = verif.Bool("F.B'"), verif.Bool("F.C'")
+		w.f.U8, w.f.U16 = verif.Uint8("F.U8'"), verif.Uint16("F.U16'")
+		w.f.Q.V = smallInt("F.Q.V'")
+		if dcx, ok := w.dc.(*ast.DataContext); ok {
+			_ = dcx // the same data context object is passed again
+		}
+	}
 	w.fired = nil
 	pre2 := snapFact(w.f, w.topN())
+	preOut2 := w.out.V
 	verif.Reach("tierB:second-call")
 	w.tmpl = tmpl + "/second-call"
 	err2, pan2 := run()
@@ -583,18 +610,34 @@ func VerifTierBReuse(set string, maxCycle int, fetchFirst int) {
 	if firedFirst > 0 && len(w.fired) > 0 {
 		verif.Reach("tierB:both-calls-fired")
 	}
-	// the first caller's facts are not touched by the second call
-	w2f := w.f
-	w.f = f1
-	w.tmpl = tmpl + "/first-callers-facts-during-second-call"
-	w.frame(after1, n1, map[string]bool{"N": true})
-	w.f = w2f
-	w.tmpl = tmpl + "/second-call"
 	may := map[string]bool{}
 	for _, n := range w.fired {
 		tbTargets(w.kb.RuleEntries[n], may)
 	}
+	if sameDC == 0 {
+		// the first caller's facts and data context are not touched by the second call
+		w2f := w.f
+		w.f = f1
+		w.tmpl = tmpl + "/first-callers-facts-during-second-call"
+		w.frame(after1, n1, map[string]bool{"N": true})
+		verif.Assert(w.L("C08:first-callers-second-fact-untouched"), out1.V == out1V)
+		verif.Assert(w.L("C08:first-callers-data-context-untouched"), dc1.IsComplete() == complete1)
+		w.f = w2f
+		w.tmpl = tmpl + "/second-call"
+	}
 	w.frame(pre2, w.topN(), may)
+	// the write-only fact of THIS call received the write (template b_writeonly)
+	if !may["Out.V"] {
+		verif.Assert(w.L("C04:frame:unaddressed-fact-unchanged:Out.V"), w.out.V == preOut2)
+	} else if tmpl == "b_writeonly" && len(w.fired) == 1 {
+		verif.Assert(w.L("C08:write-only-fact-of-the-later-call-receives-its-write"), w.out.V == pre2.f.I+7)
+		verif.Assert(w.L("C04:write-only-fact-of-the-later-call-receives-its-write"), w.out.V == pre2.f.I+7)
+	}
+	// Complete() in the later call stops THAT call (template b_complete)
+	if tmpl == "b_complete" && len(w.fired) > 0 && w.fired[0] == "Done" {
+		verif.Assert(w.L("C08:Complete-in-a-later-call-stops-that-call"), len(w.fired) == 1 && err2 == nil && w.dc.IsComplete())
+		verif.Assert(w.L("C10:Complete-in-a-later-call-stops-that-call"), len(w.fired) == 1 && err2 == nil && w.dc.IsComplete())
+	}
 	if err2 == nil && !w.dc.IsComplete() {
 		for _, n := range w.names {
 			re := w.kb.RuleEntries[n]
